@@ -87,6 +87,10 @@ func ExecAndValidate(run *core.Run, scripts []Script, o ExecOpts) *Outcome {
 	next := 0
 	round := 0
 	for next < len(scripts) {
+		if len(out.Hangs) >= 4 || len(out.Crashes) >= 4 {
+			run.Logf("%s: %d hangs, %d crashes: not executing the remaining %d scripts", o.Name, len(out.Hangs), len(out.Crashes), len(scripts)-next)
+			break
+		}
 		round++
 		batch := Batch{Scripts: scripts[next:], Seed: o.Seed + uint64(next), WatchdogMS: int(o.Watchdog / time.Millisecond)}
 		results, traceFile, crashed, err := RunBatch(o.Self, run.Work, fmt.Sprintf("%s-r%d", o.Name, round), batch, o.Env)
